@@ -363,6 +363,11 @@ class EngineBase:
         self.terminals.append((self.cur_target, list(p.pc), set(p.stmts), what))
 
     def oblige(self, p: Path, goal, kind, where="", extra=None):
+        # split top-level conjunctions: one small query per conjunct (slow merged queries are the unstable ones)
+        if z3.is_and(goal) and goal.num_args() > 1 and kind not in ("vacuity",):
+            for i, c in enumerate(goal.children()):
+                self.oblige(p, c, kind, f"{where}.{i}", extra)
+            return
         raw = goal
         goal = z3.simplify(goal)
         if z3.is_true(goal):
